@@ -373,6 +373,9 @@ func checkMain(repo, verif string, args []string) int {
 			detail["explanation"] = "the obligation was discharged on the reference tree and is not discharged now (" + o.Result.Status + ")"
 		}
 		confirmed := tryReplay(w, *prop, o, detail)
+		if !confirmed {
+			confirmed = replaySweep(w, o, obls, detail)
+		}
 		reportViolation(o.ID, detail, confirmed)
 	}
 	for _, f := range frameFindings {
